@@ -540,6 +540,11 @@ def differential(ctx, ok):
                 diffs += 1
                 ctx.failed_obligations.append(f"op rejected by one side only: {line!r}: impl {io!r} model {mo!r}")
             continue
+        if mo == "unfit" and io.endswith("err"):
+            # out-of-contract rectangles (e.g. a base grid that does not cover the region): the model
+            # calls them unfit, the implementation answers with an error
+            ctx.count(f"{kind}:model-unfit/impl-err")
+            continue
         if mo == "unfit":
             ctx.count(f"{kind}:model-unfit/impl-{status}")
             if contract and diffs < 10:
